@@ -164,6 +164,15 @@ def _socks_callback(ck, method):
     ex.overrides.append((re.compile(r'Context::borrow_client_stream$'), borrow_client_stream))
     ex.overrides.append((re.compile(r'Context::target$'), target))
     me = Agg('Callback', {0: ver, 1: C.mk_option(ex, None)})
+    # whatever else the callback object carries (bookkeeping flags) is as the listener creates it: at its initial value
+    from specs.quiccache import _default_of
+    cb_fields = ck.si.structs.get('Callback', ['version', 'listen_addr'])
+    cb_types = getattr(ck.si, 'struct_types', {}).get('Callback', {})
+    for i, f in enumerate(cb_fields):
+        if i not in me.fields:
+            d = _default_of(ex, cb_types.get(f, ''))
+            if d is not None:
+                me = me.with_field(i, d)
     ex.inputs = dict(parts, version=ver, client_stream_present=has_stream)
     args = [Ref(st.alloc(me), ()), Ref(st.alloc(Opaque('context::Context', 'ctx')), ())]
     if method == 'on_error':
@@ -217,6 +226,72 @@ def _socks_cb_replay_plan(ob):
 def spec_socks_callbacks(ck):
     _socks_callback(ck, 'on_connect')
     _socks_callback(ck, 'on_error')
+
+
+def spec_socks_association_replies(ck):
+    """a SOCKS5 UDP association: the dispatcher calls on_connect (success reply on the TCP control connection), relays datagrams,
+    and -- when the relay ends with an error, which includes the idle time-out that normally ends an association -- calls on_error.
+    The control connection is still owned by the context then (copy_bidi takes the client stream only together with a server
+    stream; a UDP association has frames).  Both callbacks are run in that order on the same scripted control connection:
+    nothing may be written after the success reply."""
+    from specs.codec import sym_target
+    f_ok = ck.find(lambda: ck.db.method('Callback', 'on_connect', trait='ContextCallback'), 'socks Callback::on_connect')
+    f_err = ck.find(lambda: ck.db.method('Callback', 'on_error', trait='ContextCallback'), 'socks Callback::on_error')
+    if f_ok is None or f_err is None:
+        return
+    ex = ck.engine(loop_bound=6)
+    ex.benign_havoc = harness.IRRELEVANT
+    st = State()
+    scell = new_stream(ex, st, 'client', Bytes.from_terms([]))
+    tgt, parts = sym_target(ex, st, 'connection_target', allow_unknown=False, maxlen=24)
+    vn = ex.si.enums['TargetAddress']
+    ex.assume(st, parts['kind'] == BV(vn.index('SocketAddr'), 64))     # the association's own address is a socket address
+
+    def borrow_client_stream(ctx):
+        return C.mk_option(ctx.ex, Ref(scell, ()))
+    ex.overrides.append((re.compile(r'Context::borrow_client_stream$'), borrow_client_stream))
+    ex.overrides.append((re.compile(r'Context::target$'), lambda ctx: tgt))
+    fields = ck.si.structs.get('Callback', ['version', 'listen_addr'])
+    me = Agg('Callback', {0: Int(BV(5, 8), 8), 1: C.mk_option(ex, None)})
+    ftypes = getattr(ck.si, 'struct_types', {}).get('Callback', {})
+    from specs.quiccache import _default_of
+    for i, f in enumerate(fields):
+        if i not in me.fields:
+            d = _default_of(ex, ftypes.get(f, ''))
+            if d is not None:
+                me = me.with_field(i, d)
+    mecell = st.alloc(me)
+    ctxref = Ref(st.alloc(Opaque('context::Context', 'ctx')), ())
+    ex.inputs = dict(parts)
+    n = 0
+    allf = []
+    for o, r in run_async(ex, st, f_ok, [Ref(mecell, ()), ctxref]):
+        allf.append(o)
+        if o.status != 'returned':
+            continue
+        w1 = stream(o, scell).out.len
+        for q, r2 in run_async(ex, o.fork(), f_err, [Ref(mecell, ()), ctxref, Opaque('easy_error::Error', 'idle timeout')]):
+            allf.append(q)
+            if q.status != 'returned':
+                continue
+            n += 1
+            w2 = stream(q, scell).out.len
+            ex.prove(q, 'C06/socks/no-failure-reply-after-the-success-reply-of-an-association', z3.Implies(z3.UGE(w1, BV(7, 64)), w2 == w1))
+    if not n:
+        ck.add('C06/socks/association/reachability', 'vacuous', 'on_connect followed by on_error never returned in the model')
+    for f in ex.findings:
+        if not hasattr(f, 'target'):
+            f.target = 'socks association replies'
+    ck.plans.append(_association_replay_plan)
+    ck.absorb(ex, 'socks Callback (on_connect then on_error)', allf)
+    ck.bounds['socks-association'] = 'SOCKS5 control connection still owned by the context; on_connect then on_error'
+
+
+def _association_replay_plan(ob):
+    if (ob.target or '') != 'socks association replies' or not ob.label.startswith('C06/socks/no-failure-reply-after'):
+        return None
+    # a real proxy (socks listener, direct connector, real dispatcher): UDP ASSOCIATE, then silence until the association times out
+    return 'e2e', {'driver': 'udp_associate_idle', 'args': {'udp_timeout': 1, 'wait_ms': 4500}}, lambda o: (o.get('success_replies') or 0) >= 1 and (o.get('failure_replies') or 0) >= 1
 
 
 # =========================================================================== SOCKS listener handshake (after the request is read)
